@@ -14,6 +14,17 @@ use std::sync::{Arc, Condvar, Mutex};
 use std::time::{Duration, Instant};
 use text_utils::verif::{self, Controller, Event, Obj, ThreadKind};
 
+/// How many times a busy-waiting thread is let through a repeated load of an unchanged atomic
+/// before it counts as blocked (0 = the wait is blocking at once, apart from the one-shot probe).
+/// Models "the item in front is slow": the waiter really polls that often before anything changes,
+/// so code whose behaviour changes after a number of polls (spin, then back off) is reached.
+static SPIN_POLLS: std::sync::atomic::AtomicUsize = std::sync::atomic::AtomicUsize::new(0);
+
+/// Set before `run`; applies to the executions started afterwards.
+pub fn set_spin_polls(n: usize) {
+    SPIN_POLLS.store(n, std::sync::atomic::Ordering::SeqCst);
+}
+
 #[derive(Clone, Copy, Debug, PartialEq, Eq, Hash)]
 pub enum Parked {
     Ev(Event),
@@ -72,6 +83,8 @@ pub struct ThreadSt {
     pub in_timed_recv: bool,
     /// the thread was let through a repeated load once since the last change of shared state
     pub probed: bool,
+    /// polls of the current busy wait that were let through (see `set_spin_polls`)
+    pub spun: usize,
     /// the parent has passed the spawn point of this thread (always true under an uncontrolled parent)
     pub spawned: bool,
 }
@@ -136,6 +149,8 @@ struct St {
     /// with a controlled body every legitimate report comes from a registered thread
     ignore_untracked: bool,
     free_receivers: Vec<Obj>,
+    spin_polls: usize,
+    spun_total: u64,
 }
 
 pub struct Ctl {
@@ -193,11 +208,16 @@ impl St {
     }
 
     fn apply_note(&mut self, tid: Option<usize>, ev: Event) {
-        self.trace.push((tid, ev));
+        // (the polls of a long busy wait are counted, not recorded)
+        let repeated_poll = matches!((tid, ev), (Some(t), Event::Loaded { obj, value }) if t < self.threads.len() && self.threads[t].spun > 0 && self.threads[t].last_load == Some((obj, value)));
+        if !repeated_poll {
+            self.trace.push((tid, ev));
+        }
         // anything but a repeated load ends a busy wait
         if let Some(t) = tid {
             if t < self.threads.len() && !matches!(ev, Event::Loaded { .. }) {
                 self.threads[t].last_load = None;
+                self.threads[t].spun = 0;
             }
         }
         if !matches!(ev, Event::Loaded { .. }) {
@@ -219,6 +239,9 @@ impl St {
                 self.mirror.atomics.insert(obj, value);
                 if let Some(t) = tid {
                     if t < self.threads.len() {
+                        if self.threads[t].last_load != Some((obj, value)) {
+                            self.threads[t].spun = 0;
+                        }
                         self.threads[t].last_load = Some((obj, value));
                     }
                 }
@@ -397,6 +420,19 @@ impl Ctl {
         crate::run::progress();
         let mut st = self.st.lock().unwrap();
         st.activity += 1;
+        // a busy wait that still has polls left: the same thread goes on (nobody else runs, nothing
+        // changes -- the same as granting it again under the default continuation)
+        if let Parked::Ev(Event::Load { obj }) = p {
+            if st.spin_polls > 0 && st.running == Some(me) && st.halt.is_none() {
+                if let Some((o, v)) = st.threads[me].last_load {
+                    if o == obj && st.mirror.atomics.get(&obj) == Some(&v) && st.threads[me].spun < st.spin_polls {
+                        st.threads[me].spun += 1;
+                        st.spun_total += 1;
+                        return;
+                    }
+                }
+            }
+        }
         if let Parked::Ev(ev) = p {
             // threads reach their start point in OS order; everything later is serialised
             if ev != Event::ThreadStart {
@@ -466,7 +502,7 @@ impl Controller for Ctl {
             }
             None => {
                 st.anomalies.push(format!("unexpected thread {kind:?} #{index} registered"));
-                st.threads.push(ThreadSt { kind, index, registered: true, parked: None, exited: false, last_load: None, last_timeout: None, in_timed_recv: false, probed: false, spawned: true });
+                st.threads.push(ThreadSt { kind, index, registered: true, parked: None, exited: false, last_load: None, last_timeout: None, in_timed_recv: false, probed: false, spun: 0, spawned: true });
                 st.threads.len() - 1
             }
         }
@@ -513,6 +549,8 @@ pub struct Exec<R> {
     pub mirror: Mirror,
     pub final_key: u64,
     pub body_panic: Option<String>,
+    /// polls of busy waits let through beyond the scheduling steps (see `set_spin_polls`)
+    pub spun: u64,
 }
 
 impl<R> Exec<R> {
@@ -530,9 +568,9 @@ impl<R> Exec<R> {
 /// Runs one execution of `body` (logical thread 0 when `consumer_controlled`) under a fresh
 /// controller. `body` gets the controller for its harness-only scheduling points.
 pub fn run<R: Send + 'static>(cfg: Config, body: impl FnOnce(Arc<Ctl>) -> R + Send + 'static) -> Exec<R> {
-    let mut threads = vec![ThreadSt { kind: ThreadKind::Consumer, index: 0, registered: true, parked: None, exited: !cfg.consumer_controlled, last_load: None, last_timeout: None, in_timed_recv: false, probed: false, spawned: true }];
+    let mut threads = vec![ThreadSt { kind: ThreadKind::Consumer, index: 0, registered: true, parked: None, exited: !cfg.consumer_controlled, last_load: None, last_timeout: None, in_timed_recv: false, probed: false, spun: 0, spawned: true }];
     for (kind, index) in &cfg.threads {
-        threads.push(ThreadSt { kind: *kind, index: *index, registered: false, parked: None, exited: false, last_load: None, last_timeout: None, in_timed_recv: false, probed: false, spawned: !cfg.consumer_controlled });
+        threads.push(ThreadSt { kind: *kind, index: *index, registered: false, parked: None, exited: false, last_load: None, last_timeout: None, in_timed_recv: false, probed: false, spun: 0, spawned: !cfg.consumer_controlled });
     }
     let ctl = Arc::new(Ctl {
         st: Mutex::new(St {
@@ -552,6 +590,8 @@ pub fn run<R: Send + 'static>(cfg: Config, body: impl FnOnce(Arc<Ctl>) -> R + Se
             activity: 0,
             ignore_untracked: cfg.consumer_controlled,
             free_receivers: cfg.free_receivers,
+            spin_polls: SPIN_POLLS.load(std::sync::atomic::Ordering::SeqCst),
+            spun_total: 0,
         }),
         cv: Condvar::new(),
         state_fn: cfg.state_fn,
@@ -633,6 +673,7 @@ pub fn run<R: Send + 'static>(cfg: Config, body: impl FnOnce(Arc<Ctl>) -> R + Se
         anomalies: st.anomalies.clone(),
         mirror: st.mirror.clone(),
         final_key: st.final_key,
+        spun: st.spun_total,
         body_panic,
     }
 }
